@@ -206,7 +206,157 @@ Proof.
     unfold upstream_stream_f, upstream_stream; rewrite copy_preserves_stream_st, copy_preserves_stream; reflexivity.
 Qed.
 
-(* ================= the first finished direction ends the tunnel ================= *)
+(* ================= the tunnel: both directions, half-close passed on (tunnel.go, e0f2d05) ================= *)
+Record hinv (C U : str) (s : hstate) : Prop := {
+  hi_c : h_c_done s ++ concat (h_c_todo s) = C;
+  hi_u : h_u_done s ++ concat (h_u_todo s) = U;
+  hi_fc : forall b, h_c_fin s = Some b -> h_c_todo s = [] /\ b = h_cw_out s;
+  hi_fu : forall b, h_u_fin s = Some b -> h_u_todo s = [] /\ b = h_cw_in s
+}.
+
+Ltac hproj := cbn [h_c_todo h_c_eof h_c_done h_c_fin h_u_todo h_u_eof h_u_done h_u_fin h_cw_out h_cw_in].
+
+Lemma hstep_inv C U d s : hinv C U s -> hinv C U (hstep d s).
+Proof.
+  intros [H1 H2 H3 H4]. unfold hstep. destruct (h_ended s); [constructor; assumption|].
+  destruct d.
+  - destruct (h_c_fin s) as [b0|] eqn:F; [constructor; rewrite ?F; assumption|].
+    destruct (h_c_todo s) as [|ch rest] eqn:T.
+    + destruct (h_c_eof s) eqn:E; [|constructor; rewrite ?F, ?T; assumption].
+      constructor; hproj.
+      * exact H1.
+      * exact H2.
+      * intros b Hb. inversion Hb. split; reflexivity.
+      * exact H4.
+    + constructor; hproj.
+      * rewrite <- H1. cbn [concat]. now rewrite app_assoc.
+      * exact H2.
+      * intros b Hb. discriminate Hb.
+      * exact H4.
+  - destruct (h_u_fin s) as [b0|] eqn:F; [constructor; rewrite ?F; assumption|].
+    destruct (h_u_todo s) as [|ch rest] eqn:T.
+    + destruct (h_u_eof s) eqn:E; [|constructor; rewrite ?F, ?T; assumption].
+      constructor; hproj.
+      * exact H1.
+      * exact H2.
+      * exact H3.
+      * intros b Hb. inversion Hb. split; reflexivity.
+    + constructor; hproj.
+      * exact H1.
+      * rewrite <- H2. cbn [concat]. now rewrite app_assoc.
+      * exact H3.
+      * intros b Hb. discriminate Hb.
+Qed.
+
+Lemma hstep_caps d s : h_cw_out (hstep d s) = h_cw_out s /\ h_cw_in (hstep d s) = h_cw_in s.
+Proof.
+  unfold hstep. destruct (h_ended s); [split; reflexivity|].
+  destruct d; [destruct (h_c_fin s); [split; reflexivity|]; destruct (h_c_todo s); [destruct (h_c_eof s)|]
+              | destruct (h_u_fin s); [split; reflexivity|]; destruct (h_u_todo s); [destruct (h_u_eof s)|]];
+    split; reflexivity.
+Qed.
+
+Lemma hrun_inv C U sched : forall s, hinv C U s -> hinv C U (hrun sched s).
+Proof.
+  induction sched as [|d sched IH]; intros s H; [exact H|].
+  unfold hrun. cbn [fold_left]. apply IH. apply hstep_inv. exact H.
+Qed.
+
+Lemma hrun_caps sched : forall s, h_cw_out (hrun sched s) = h_cw_out s /\ h_cw_in (hrun sched s) = h_cw_in s.
+Proof.
+  induction sched as [|d sched IH]; intros s; [split; reflexivity|].
+  unfold hrun. cbn [fold_left]. destruct (IH (hstep d s)) as [A B]. unfold hrun in A, B.
+  rewrite A, B. apply hstep_caps.
+Qed.
+
+Lemma hinit_inv c ceof u ueof co ci : hinv (concat c) (concat u) (hinit c ceof u ueof co ci).
+Proof. constructor; cbn; try reflexivity; intros b Hb; discriminate Hb. Qed.
+
+(* for every schedule of the two copiers, every pair of streams, every segmentation and both
+   kinds of connection: each side has received a prefix of what the other sent (every byte at
+   most once, in order, unmodified) ... *)
+Theorem tunnel_delivers_prefixes : forall sched c ceof u ueof co ci,
+  let s := hrun sched (hinit c ceof u ueof co ci) in
+  (exists rest, concat c = h_c_done s ++ rest) /\ (exists rest, concat u = h_u_done s ++ rest).
+Proof.
+  intros. destruct (hrun_inv _ _ sched _ (hinit_inv c ceof u ueof co ci)) as [Hc Hu _ _].
+  split; [exists (concat (h_c_todo s)) | exists (concat (h_u_todo s))]; symmetry; assumption.
+Qed.
+
+(* ... a direction that has finished - first or second - has delivered all of its data ... *)
+Theorem finisher_fully_delivered : forall sched c ceof u ueof co ci,
+  let s := hrun sched (hinit c ceof u ueof co ci) in
+  (h_c_fin s <> None -> h_c_done s = concat c) /\ (h_u_fin s <> None -> h_u_done s = concat u).
+Proof.
+  intros. destruct (hrun_inv _ _ sched _ (hinit_inv c ceof u ueof co ci)) as [Hc Hu Hfc Hfu]. fold s in Hc, Hu, Hfc, Hfu.
+  split; intros F.
+  - destruct (h_c_fin s) as [b|] eqn:E; [|contradiction]. destruct (Hfc b eq_refl) as [T _].
+    rewrite T in Hc. cbn [concat] in Hc. now rewrite app_nil_r in Hc.
+  - destruct (h_u_fin s) as [b|] eqn:E; [|contradiction]. destruct (Hfu b eq_refl) as [T _].
+    rewrite T in Hu. cbn [concat] in Hu. now rewrite app_nil_r in Hu.
+Qed.
+
+(* ... the client's EOF alone never ends the tunnel when the upstream connection can be closed
+   for writing (a dialled TCP connection can): when the tunnel has ended, the upstream's whole
+   output has been delivered - a client that half-closes after sending receives the full reply ... *)
+Theorem half_close_reply_delivered : forall sched c ceof u ueof ci,
+  let s := hrun sched (hinit c ceof u ueof true ci) in
+  h_ended s = true -> h_u_done s = concat u.
+Proof.
+  intros sched c ceof u ueof ci s E.
+  destruct (finisher_fully_delivered sched c ceof u ueof true ci) as [_ Hu]. fold s in Hu. apply Hu.
+  destruct (hrun_inv _ _ sched _ (hinit_inv c ceof u ueof true ci)) as [_ _ Hfc _]. fold s in Hfc.
+  destruct (hrun_caps sched (hinit c ceof u ueof true ci)) as [Co _]. fold s in Co. cbn [hinit h_cw_out] in Co.
+  unfold h_ended in E. destruct (h_c_fin s) as [[|]|] eqn:Fc; destruct (h_u_fin s) as [[|]|] eqn:Fu;
+    try discriminate; try (intros X; discriminate X).
+  all: destruct (Hfc false eq_refl) as [_ Hb]; rewrite Co in Hb; discriminate Hb.
+Qed.
+
+(* ... and when both connections can be closed for writing the tunnel ends only when BOTH
+   directions are done: every byte delivered exactly once, in order, both ways, whatever the
+   order in which the two sides close *)
+Theorem tunnel_end_all_delivered : forall sched c ceof u ueof,
+  let s := hrun sched (hinit c ceof u ueof true true) in
+  h_ended s = true -> h_c_done s = concat c /\ h_u_done s = concat u.
+Proof.
+  intros sched c ceof u ueof s E.
+  destruct (finisher_fully_delivered sched c ceof u ueof true true) as [Hc Hu]. fold s in Hc, Hu.
+  destruct (hrun_inv _ _ sched _ (hinit_inv c ceof u ueof true true)) as [_ _ Hfc Hfu]. fold s in Hfc, Hfu.
+  destruct (hrun_caps sched (hinit c ceof u ueof true true)) as [Co Ci]. fold s in Co, Ci. cbn [hinit h_cw_out h_cw_in] in Co, Ci.
+  unfold h_ended in E. destruct (h_c_fin s) as [[|]|] eqn:Fc; destruct (h_u_fin s) as [[|]|] eqn:Fu; try discriminate.
+  - split; [apply Hc | apply Hu]; intros X; discriminate X.
+  - destruct (Hfu false eq_refl) as [_ Hb]. rewrite Ci in Hb. discriminate Hb.
+  - destruct (Hfc false eq_refl) as [_ Hb]. rewrite Co in Hb. discriminate Hb.
+  - destruct (Hfc false eq_refl) as [_ Hb]. rewrite Co in Hb. discriminate Hb.
+  - destruct (Hfc false eq_refl) as [_ Hb]. rewrite Co in Hb. discriminate Hb.
+  - destruct (Hfu false eq_refl) as [_ Hb]. rewrite Ci in Hb. discriminate Hb.
+Qed.
+
+Example tunnel_half_close_nonvacuous :
+  let s := hrun [C2U; C2U; U2C; U2C] (hinit [[1; 2; 3]%N] true [[7; 8]%N] true true true) in
+  h_ended s = true /\ h_c_done s = [1; 2; 3]%N /\ h_u_done s = [7; 8]%N.
+Proof. repeat split; reflexivity. Qed.
+
+(* F-C09-5 as it was before fix commit ad209fd: behind the tcp server's wrapper (which could not
+   be closed for writing, whatever it wrapped) an upstream half-close ended the tunnel at once
+   and cut what the client was still sending; with the delegating CloseWrite the same schedule
+   goes on and delivers everything, the client having seen EOF after the upstream's data *)
+Theorem upstream_half_close_refuted :
+  (let s := hrun [U2C; U2C; C2U] (hinit [[1; 2]%N; [3]%N] true [[7; 8]%N] true true (wrapper_cw_unrepaired true)) in
+   h_ended s = true /\ h_u_done s = [7; 8]%N /\ h_c_done s = [] /\ h_c_done s <> [1; 2; 3]%N) /\
+  (let s := hrun [U2C; U2C; C2U] (hinit [[1; 2]%N; [3]%N] true [[7; 8]%N] true true (wrapper_cw true)) in
+   h_ended s = false /\ h_u_fin s = Some true /\ h_c_done s = [1; 2]%N) /\
+  (let s := hrun [U2C; U2C; C2U; C2U; C2U] (hinit [[1; 2]%N; [3]%N] true [[7; 8]%N] true true (wrapper_cw true)) in
+   h_ended s = true /\ h_u_done s = [7; 8]%N /\ h_c_done s = [1; 2; 3]%N) /\
+  (let e := tunnel_expect [1; 2; 3]%N [7; 8]%N (wrapper_cw_unrepaired true) false false CHalf UAtConnect UHalf in
+   region_upstream_half_close [1; 2; 3]%N (wrapper_cw_unrepaired true) UAtConnect UHalf = true /\ e_up_lo e = 0%N /\ e_cl_eof e = Some false) /\
+  (let e := tunnel_expect [1; 2; 3]%N [7; 8]%N (wrapper_cw true) false false CHalf UAtConnect UHalf in
+   region_upstream_half_close [1; 2; 3]%N (wrapper_cw true) UAtConnect UHalf = false /\ e_up_lo e = 3%N /\ e_cl_lo e = 2%N /\
+   e_cl_eof e = Some true /\ e_ends e = Some true).
+Proof. repeat split; try reflexivity; cbv; discriminate. Qed.
+
+(* ================= the unrepaired tunnel (before e0f2d05): the first finished direction ended it ================= *)
+
 Record tinv (C U : str) (s : tstate) : Prop := {
   ti_c : t_c_done s ++ concat (t_c_todo s) = C;
   ti_u : t_u_done s ++ concat (t_u_todo s) = U;
@@ -214,9 +364,9 @@ Record tinv (C U : str) (s : tstate) : Prop := {
   ti_eu : t_ended s = Some U2C -> t_u_todo s = [] /\ t_u_eof s = true
 }.
 
-Lemma tstep_inv C U d s : tinv C U s -> tinv C U (tstep d s).
+Lemma tstep_inv C U d s : tinv C U s -> tinv C U (tstep_unrepaired d s).
 Proof.
-  intros [Hc Hu Hec Heu]. unfold tstep.
+  intros [Hc Hu Hec Heu]. unfold tstep_unrepaired.
   destruct (t_ended s) eqn:E; [constructor; rewrite ?E; assumption|].
   destruct d.
   - destruct (t_c_todo s) as [|ch rest] eqn:T.
@@ -247,34 +397,34 @@ Proof.
       * discriminate.
 Qed.
 
-Lemma trun_inv C U sched : forall s, tinv C U s -> tinv C U (trun sched s).
+Lemma trun_inv C U sched : forall s, tinv C U s -> tinv C U (trun_unrepaired sched s).
 Proof.
   induction sched as [|d sched IH]; intros s H; [exact H|].
-  unfold trun. cbn [fold_left]. apply IH. apply tstep_inv. exact H.
+  unfold trun_unrepaired. cbn [fold_left]. apply IH. apply tstep_inv. exact H.
 Qed.
 
-Lemma tinit_inv c ceof u ueof : tinv (concat c) (concat u) (tinit c ceof u ueof).
+Lemma tinit_inv c ceof u ueof : tinv (concat c) (concat u) (tinit_unrepaired c ceof u ueof).
 Proof. constructor; cbn; try reflexivity; discriminate. Qed.
 
-Lemma tstep_eof d s : t_c_eof (tstep d s) = t_c_eof s /\ t_u_eof (tstep d s) = t_u_eof s.
+Lemma tstep_eof d s : t_c_eof (tstep_unrepaired d s) = t_c_eof s /\ t_u_eof (tstep_unrepaired d s) = t_u_eof s.
 Proof.
-  unfold tstep. destruct (t_ended s); [split; reflexivity|].
+  unfold tstep_unrepaired. destruct (t_ended s); [split; reflexivity|].
   destruct d.
   - destruct (t_c_todo s); [destruct (t_c_eof s) eqn:F|]; cbn; rewrite ?F; split; reflexivity.
   - destruct (t_u_todo s); [destruct (t_u_eof s) eqn:F|]; cbn; rewrite ?F; split; reflexivity.
 Qed.
 
-Lemma trun_eof sched : forall s, t_c_eof (trun sched s) = t_c_eof s /\ t_u_eof (trun sched s) = t_u_eof s.
+Lemma trun_eof sched : forall s, t_c_eof (trun_unrepaired sched s) = t_c_eof s /\ t_u_eof (trun_unrepaired sched s) = t_u_eof s.
 Proof.
   induction sched as [|d sched IH]; intros s; [split; reflexivity|].
-  unfold trun. cbn [fold_left]. destruct (IH (tstep d s)) as [H1 H2]. unfold trun in H1, H2.
+  unfold trun_unrepaired. cbn [fold_left]. destruct (IH (tstep_unrepaired d s)) as [H1 H2]. unfold trun_unrepaired in H1, H2.
   rewrite H1, H2. apply tstep_eof.
 Qed.
 
 (* under every schedule: each side receives a prefix of what the other sent (in order,
    once, unmodified) ... *)
-Theorem tunnel_delivers_prefixes : forall sched c ceof u ueof,
-  let s := trun sched (tinit c ceof u ueof) in
+Theorem tunnel_delivers_prefixes_unrepaired : forall sched c ceof u ueof,
+  let s := trun_unrepaired sched (tinit_unrepaired c ceof u ueof) in
   (exists rest, concat c = t_c_done s ++ rest) /\ (exists rest, concat u = t_u_done s ++ rest).
 Proof.
   intros. destruct (trun_inv _ _ sched _ (tinit_inv c ceof u ueof)) as [Hc Hu _ _].
@@ -282,14 +432,14 @@ Proof.
 Qed.
 
 (* ... and whichever direction finishes first has had all of its data delivered *)
-Theorem finisher_fully_delivered : forall sched c ceof u ueof,
-  let s := trun sched (tinit c ceof u ueof) in
+Theorem finisher_fully_delivered_unrepaired : forall sched c ceof u ueof,
+  let s := trun_unrepaired sched (tinit_unrepaired c ceof u ueof) in
   (t_ended s = Some C2U -> t_c_done s = concat c /\ ceof = true) /\
   (t_ended s = Some U2C -> t_u_done s = concat u /\ ueof = true).
 Proof.
   intros.
   assert (Hk : t_c_eof s = ceof /\ t_u_eof s = ueof).
-  { subst s. destruct (trun_eof sched (tinit c ceof u ueof)) as [-> ->]. split; reflexivity. }
+  { subst s. destruct (trun_eof sched (tinit_unrepaired c ceof u ueof)) as [-> ->]. split; reflexivity. }
   destruct Hk as [Hk1 Hk2].
   destruct (trun_inv _ _ sched _ (tinit_inv c ceof u ueof)) as [Hc Hu Hec Heu]. fold s in Hc, Hu, Hec, Heu.
   split; intros E.
@@ -297,8 +447,8 @@ Proof.
   - destruct (Heu E) as [T F]. rewrite T in Hu. cbn [concat] in Hu. rewrite app_nil_r in Hu. split; congruence.
 Qed.
 
-Example finisher_nonvacuous :
-  t_ended (trun [C2U; U2C; C2U; C2U] (tinit [[1%N; 2%N]; [3%N]] true [[9%N]] false)) = Some C2U.
+Example finisher_nonvacuous_unrepaired :
+  t_ended (trun_unrepaired [C2U; U2C; C2U; C2U] (tinit_unrepaired [[1%N; 2%N]; [3%N]] true [[9%N]] false)) = Some C2U.
 Proof. reflexivity. Qed.
 
 (* a client that sends, half-closes (its source ends with EOF, it keeps reading) and an
@@ -306,7 +456,7 @@ Proof. reflexivity. Qed.
    reply is relayed the tunnel is torn down and the reply never arrives *)
 Theorem half_close_reply_refuted :
   exists sched req reply,
-    let s := trun sched (tinit [req] true [reply] true) in
+    let s := trun_unrepaired sched (tinit_unrepaired [req] true [reply] true) in
     reply <> [] /\ t_ended s = Some C2U /\ t_c_done s = req /\ t_u_done s = [] /\ t_u_done s <> reply.
 Proof.
   exists [C2U; C2U; U2C], [1%N; 2%N; 3%N], [7%N; 8%N].
@@ -315,13 +465,25 @@ Qed.
 
 (* the reply does arrive under every schedule in which the client only ends after the
    reply has been relayed (the waiting client of the correspondence run) *)
-Theorem half_close_reply_on_domain : forall sched c u ueof,
-  let s := trun sched (tinit c false u ueof) in
+Theorem half_close_reply_on_domain_unrepaired : forall sched c u ueof,
+  let s := trun_unrepaired sched (tinit_unrepaired c false u ueof) in
   t_ended s = Some U2C -> t_u_done s = concat u.
 Proof.
   intros sched c u ueof s E.
-  destruct (finisher_fully_delivered sched c false u ueof) as [_ H]. fold s in H. apply H. exact E.
+  destruct (finisher_fully_delivered_unrepaired sched c false u ueof) as [_ H]. fold s in H. apply H. exact E.
 Qed.
+
+(* F-C09-2 paired: the schedule on which the unrepaired tunnel lost the reply (the client
+   direction sees EOF first), run on the current tunnel: it does not end there, and ends - with
+   request and reply both delivered - once the upstream direction is done too *)
+Theorem half_close_reply_refuted_now_delivered :
+  (let s := trun_unrepaired [C2U; C2U; U2C] (tinit_unrepaired [[1; 2; 3]%N] true [[7; 8]%N] true) in
+   t_ended s = Some C2U /\ t_u_done s = [] /\ t_u_done s <> [7; 8]%N) /\
+  (let s := hrun [C2U; C2U] (hinit [[1; 2; 3]%N] true [[7; 8]%N] true true true) in
+   h_ended s = false /\ h_c_fin s = Some true) /\
+  (let s := hrun [C2U; C2U; U2C; U2C] (hinit [[1; 2; 3]%N] true [[7; 8]%N] true true true) in
+   h_ended s = true /\ h_c_done s = [1; 2; 3]%N /\ h_u_done s = [7; 8]%N).
+Proof. repeat split; try reflexivity; cbv; discriminate. Qed.
 
 (* ================= bufio.Reader: nothing is invented, reordered or duplicated ================= *)
 Definition pending (b : breader) : str := b_buf b ++ concat (b_src b).
@@ -721,15 +883,15 @@ Theorem ws_split_101_refuted :
   has_prefix wit_reply ws_101 = true /\
   ws_first_chunk_unrepaired (firstn 10 wit_reply) = firstn 10 wit_reply /\
   ws_upgraded_unrepaired (firstn 10 wit_reply) = false /\
-  exists e, scenario_expect KWs false [] [[1; 2]%N] 0 false CStay UAtConnect wit_reply 10 (nlen' wit_reply) UStay = Ok e /\
+  exists e, scenario_expect KWs false [] [[1; 2]%N] 0 true false CStay UAtConnect wit_reply 10 (nlen' wit_reply) UStay = Ok e /\
     e_cl e = wit_reply /\ e_cl_lo e = nlen' wit_reply /\ e_up e = [1; 2]%N /\ e_up_lo e = 2%N /\
-    spec_b KWs false [] [1; 2]%N false CStay UAtConnect wit_reply UStay (e_up e) (e_cl e) = true.
+    spec_b KWs false [] [1; 2]%N 0 true false CStay UAtConnect wit_reply UStay (e_up e) (e_cl e) false false = true.
 Proof. repeat split; try (vm_compute; reflexivity). eexists. repeat split; vm_compute; reflexivity. Qed.
 
 (* an upstream that ends before 12 bytes have arrived: "error reading handshake", the client
    receives nothing (not even the partial bytes) *)
 Example ws_short_reply_nothing_forwarded :
-  exists e, scenario_expect KWs false [] [[1; 2]%N] 0 false CStay UAtConnect (firstn 10 wit_reply) 4 10 UClose = Ok e /\
+  exists e, scenario_expect KWs false [] [[1; 2]%N] 0 true false CStay UAtConnect (firstn 10 wit_reply) 4 10 UClose = Ok e /\
     e_cl e = [] /\ e_cl_hi e = 0%N /\ e_up e = [].
 Proof. eexists. repeat split; vm_compute; reflexivity. Qed.
 
@@ -738,17 +900,19 @@ Proof. eexists. repeat split; vm_compute; reflexivity. Qed.
 Lemma is_prefix_refl s : is_prefix s s = true.
 Proof. induction s as [|x s IH]; cbn [is_prefix]; [reflexivity|]. now rewrite N.eqb_refl, IH. Qed.
 
-Theorem half_close_scenario_refuted :
-  exists e, region_half_close false CHalf = true /\
-    scenario_expect KTcp false [] [[1; 2; 3]%N] 0 false CHalf UOnEOF [7; 8]%N 0 0 UClose = Ok e /\
-    e_up e = [1; 2; 3]%N /\ e_up_lo e = 3%N /\ e_cl_hi e = 0%N /\
-    spec_b KTcp false [] [1; 2; 3]%N false CHalf UOnEOF [7; 8]%N UClose [1; 2; 3]%N [] = false.
+(* the scripted half-close scenario (F-C09-2's witness) on the current model: the request is
+   delivered, the half-close is passed on, the reply sent at EOF arrives, the tunnel ends *)
+Theorem half_close_scenario_delivered :
+  exists e, scenario_expect KTcp false [] [[1; 2; 3]%N] 0 false false CHalf UOnEOF [7; 8]%N 0 0 UClose = Ok e /\
+    e_up e = [1; 2; 3]%N /\ e_up_lo e = 3%N /\ e_cl e = [7; 8]%N /\ e_cl_lo e = 2%N /\ e_ends e = Some true /\
+    spec_b KTcp false [] [1; 2; 3]%N 0 false false CHalf UOnEOF [7; 8]%N UClose [1; 2; 3]%N [7; 8]%N true false = true /\
+    spec_b KTcp false [] [1; 2; 3]%N 0 false false CHalf UOnEOF [7; 8]%N UClose [1; 2; 3]%N [] true false = false.
 Proof. eexists. repeat split; vm_compute; reflexivity. Qed.
 
 Example waiting_client_scenario :
-  exists e, scenario_expect KTcp false [] [[1; 2; 3]%N] 0 true CHalf (UAfterBytes 3) [7; 8]%N 0 0 UStay = Ok e /\
+  exists e, scenario_expect KTcp false [] [[1; 2; 3]%N] 0 true true CHalf (UAfterBytes 3) [7; 8]%N 0 0 UStay = Ok e /\
     e_up_lo e = 3%N /\ e_cl_lo e = 2%N /\
-    spec_b KTcp false [] [1; 2; 3]%N true CHalf (UAfterBytes 3) [7; 8]%N UStay [1; 2; 3]%N [7; 8]%N = true.
+    spec_b KTcp false [] [1; 2; 3]%N 0 true true CHalf (UAfterBytes 3) [7; 8]%N UStay [1; 2; 3]%N [7; 8]%N true true = true.
 Proof. eexists. repeat split; vm_compute; reflexivity. Qed.
 
 (* ================= fuel: the loops of the reader model terminate within the fuel supplied ================= *)
@@ -1010,63 +1174,95 @@ Ltac ncases :=
   end.
 
 (* whenever the specification demands the client's whole stream, the forced outcome has it *)
-Lemma expect_up_complete : forall up reply cwait ce ut ue,
-  region_half_close cwait ce = false -> race_close_unread_reply up cwait ce ut = false ->
+Lemma expect_up_complete : forall up reply cw_in cerr cwait ce ut ue,
+  region_upstream_half_close up cw_in ut ue = false ->
   spec_req_up (nlen' up) ut ue = true ->
-  e_up_lo (tunnel_expect up reply cwait ce ut ue) = nlen' up.
+  e_up_lo (tunnel_expect up reply cw_in cerr cwait ce ut ue) = nlen' up.
 Proof.
-  intros up reply cwait ce ut ue. unfold tunnel_expect, spec_req_up, spec_safe, spec_early, region_half_close, race_close_unread_reply.
+  intros up reply cw_in cerr cwait ce ut ue.
+  unfold tunnel_expect, spec_req_up, spec_safe, spec_early, region_upstream_half_close. cbn [e_up_lo].
   generalize (nlen' up) as U. generalize (nlen' reply) as R. intros R U.
-  destruct ue, ce, cwait, ut; cbn [negb andb orb]; intros H1 H2 H3; ncases;
-    cbn [negb andb orb e_up_lo] in *; try discriminate; try reflexivity; try lia.
+  destruct ue, cw_in, ut; cbn [negb andb orb]; intros H1 H2; ncases;
+    cbn [negb andb orb] in *; try discriminate; try reflexivity; try lia.
 Qed.
 
 (* ... and likewise the whole reply *)
-Lemma expect_cl_complete : forall up reply cwait ce ut ue,
-  region_half_close cwait ce = false -> race_close_unread_reply up cwait ce ut = false ->
-  spec_req_cl (nlen' up) cwait ce ut ue = true ->
-  e_cl_lo (tunnel_expect up reply cwait ce ut ue) = nlen' reply.
+Lemma expect_cl_complete : forall up reply cw_in cerr cwait ce ut ue,
+  spec_req_cl (nlen' up) (nlen' reply) cwait ce ut ue = true ->
+  e_cl_lo (tunnel_expect up reply cw_in cerr cwait ce ut ue) = nlen' reply.
 Proof.
-  intros up reply cwait ce ut ue. unfold tunnel_expect, spec_req_cl, spec_safe, spec_early, region_half_close, race_close_unread_reply.
+  intros up reply cw_in cerr cwait ce ut ue.
+  unfold tunnel_expect, spec_req_cl, spec_safe, spec_early, spec_wait_ok, is_stay. cbn [e_cl_lo].
   generalize (nlen' up) as U. generalize (nlen' reply) as R. intros R U.
-  destruct ue, ce, cwait, ut; cbn [negb andb orb]; intros H1 H2 H3; ncases;
-    cbn [negb andb orb e_cl_lo] in *; try discriminate; try reflexivity; try lia.
+  destruct ue, ce, cwait, ut; cbn [negb andb orb]; intros H1; ncases;
+    cbn [negb andb orb fst snd] in *; try discriminate; try reflexivity; try lia.
 Qed.
 
-Lemma tunnel_expect_streams up reply cwait ce ut ue :
-  let e := tunnel_expect up reply cwait ce ut ue in e_conn e = true /\ e_up e = up /\ e_cl e = reply.
+(* ... and the tunnel ends by itself whenever the specification demands it *)
+Lemma expect_ends : forall up reply cw_in cerr cwait ce ut ue,
+  spec_req_ends (nlen' up) (nlen' reply) cwait ce ut = true ->
+  e_ends (tunnel_expect up reply cw_in cerr cwait ce ut ue) = Some true.
 Proof.
-  unfold tunnel_expect.
-  destruct (match ue with UClose => _ | UStay => false end); [repeat split|].
-  destruct ce; [| destruct cwait | destruct cwait];
-    destruct (match ut with UAtConnect => true | UAfterBytes n => (n <=? nlen' up)%N | UOnEOF => false end);
-    repeat split.
+  intros up reply cw_in cerr cwait ce ut ue.
+  unfold tunnel_expect, spec_req_ends, spec_wait_ok, spec_early, is_stay. cbn [e_ends].
+  generalize (nlen' up) as U. generalize (nlen' reply) as R. intros R U.
+  destruct ue, ce, cwait, cw_in, ut; cbn [negb andb orb]; intros H1; ncases;
+    cbn [negb andb orb] in *; try discriminate; try reflexivity; try lia.
 Qed.
+
+(* ... and the client sees EOF whenever the specification demands it *)
+Lemma expect_eof : forall up reply cw_in cerr cwait ce ut ue,
+  spec_req_eof (nlen' up) (nlen' reply) cw_in cerr cwait ce ut ue = true ->
+  e_cl_eof (tunnel_expect up reply cw_in cerr cwait ce ut ue) = Some true.
+Proof.
+  intros up reply cw_in cerr cwait ce ut ue.
+  unfold tunnel_expect, spec_req_eof, spec_req_ends, spec_safe, spec_wait_ok, spec_early, is_stay. cbn [e_cl_eof].
+  generalize (nlen' up) as U. generalize (nlen' reply) as R. intros R U.
+  destruct ue, ce, cwait, cw_in, cerr, ut; cbn [negb andb orb]; intros H1; ncases;
+    cbn [negb andb orb] in *; try discriminate; try reflexivity; try lia.
+Qed.
+
+Lemma tunnel_expect_streams up reply cw_in cerr cwait ce ut ue :
+  let e := tunnel_expect up reply cw_in cerr cwait ce ut ue in e_conn e = true /\ e_up e = up /\ e_cl e = reply.
+Proof. unfold tunnel_expect. cbn [e_conn e_up e_cl]. repeat split. Qed.
+
+(* an observation agrees with an expectation *)
+Definition ends_agree (e : expectation) (o_ended : bool) : bool :=
+  match e_ends e with Some b => Bool.eqb o_ended b | None => true end.
+Definition eof_agree (e : expectation) (o_eof : bool) : bool :=
+  match e_cl_eof e with Some b => Bool.eqb o_eof b | None => true end.
 
 (* interval semantics: any observation within the forced outcome's bounds satisfies the
-   specification, outside the half-close region and the close-with-unread-reply race *)
-Theorem tunnel_expect_meets_spec : forall up reply cwait ce ut ue o_up o_cl,
-  let e := tunnel_expect up reply cwait ce ut ue in
-  region_half_close cwait ce = false -> race_close_unread_reply up cwait ce ut = false ->
+   specification, outside the upstream-half-close-without-CloseWrite combination *)
+Theorem tunnel_expect_meets_spec : forall up reply cw_in cerr cwait ce ut ue o_up o_cl o_ended o_eof,
+  let e := tunnel_expect up reply cw_in cerr cwait ce ut ue in
+  region_upstream_half_close up cw_in ut ue = false ->
   within o_up (e_up e) (e_up_lo e) (nlen' (e_up e)) = true ->
   is_prefix o_cl (e_cl e) = true -> (e_cl_lo e <= nlen' o_cl)%N ->
-  spec_core up reply cwait ce ut ue o_up o_cl = true.
+  ends_agree e o_ended = true -> eof_agree e o_eof = true ->
+  spec_core up reply cw_in cerr cwait ce ut ue o_up o_cl o_ended o_eof = true.
 Proof.
-  intros up reply cwait ce ut ue o_up o_cl e Hr Hrace Hup Hcl Hlo.
-  destruct (tunnel_expect_streams up reply cwait ce ut ue) as [_ [Eu Ec]]. fold e in Eu, Ec.
+  intros up reply cw_in cerr cwait ce ut ue o_up o_cl o_ended o_eof e Hr Hup Hcl Hlo Hen Hef.
+  destruct (tunnel_expect_streams up reply cw_in cerr cwait ce ut ue) as [_ [Eu Ec]]. fold e in Eu, Ec.
   rewrite Eu in Hup. rewrite Ec in Hcl. unfold within in Hup.
   apply andb_true_iff in Hup. destruct Hup as [Hup _]. apply andb_true_iff in Hup. destruct Hup as [Hpu Hlu].
   apply N.leb_le in Hlu.
   unfold spec_core. rewrite Hpu, Hcl. cbn [andb].
-  apply andb_true_iff. split.
+  apply andb_true_iff. split; [apply andb_true_iff; split; [apply andb_true_iff; split|]|].
   - destruct (spec_req_up (nlen' up) ut ue) eqn:Q; [|reflexivity].
     apply beq_eq. apply is_prefix_full; [exact Hpu|].
-    pose proof (expect_up_complete up reply cwait ce ut ue Hr Hrace Q) as L. fold e in L.
+    pose proof (expect_up_complete up reply cw_in cerr cwait ce ut ue Hr Q) as L. fold e in L.
     unfold nlen' in *. lia.
-  - destruct (spec_req_cl (nlen' up) cwait ce ut ue) eqn:Q; [|reflexivity].
+  - destruct (spec_req_cl (nlen' up) (nlen' reply) cwait ce ut ue) eqn:Q; [|reflexivity].
     apply beq_eq. apply is_prefix_full; [exact Hcl|].
-    pose proof (expect_cl_complete up reply cwait ce ut ue Hr Hrace Q) as L. fold e in L.
+    pose proof (expect_cl_complete up reply cw_in cerr cwait ce ut ue Q) as L. fold e in L.
     unfold nlen' in *. lia.
+  - destruct (spec_req_ends (nlen' up) (nlen' reply) cwait ce ut) eqn:Q; [|reflexivity].
+    pose proof (expect_ends up reply cw_in cerr cwait ce ut ue Q) as L. fold e in L.
+    unfold ends_agree in Hen. rewrite L in Hen. destruct o_ended; [reflexivity | discriminate].
+  - destruct (spec_req_eof (nlen' up) (nlen' reply) cw_in cerr cwait ce ut ue) eqn:Q; [|reflexivity].
+    pose proof (expect_eof up reply cw_in cerr cwait ce ut ue Q) as L. fold e in L.
+    unfold eof_agree in Hef. rewrite L in Hef. destruct o_eof; [reflexivity | discriminate].
 Qed.
 
 Lemma has_prefix_firstn s p n : has_prefix s p = true -> (length p <= n)%nat -> has_prefix (firstn n s) p = true.
@@ -1090,33 +1286,38 @@ Proof.
   apply andb_true_iff in H. destruct H as [H1 H2]. apply N.leb_le in H2. split; assumption.
 Qed.
 
-(* THE LINK: for all scenarios (proxy kind, PROXY option, segmentation, close order, trigger),
-   outside the open finding region (F-C09-2 half-close) and the close-with-unread-reply race, every observation within the model's
-   forced outcome satisfies spec_b: the tripwire verdict 4 cannot arise from the model side *)
-Theorem scenario_meets_spec : forall k pp line segs fin cwait ce ut reply rseg1 whead ue e o_up o_cl,
-  scenario_expect k pp line segs fin cwait ce ut reply rseg1 whead ue = Ok e ->
-  region_half_close cwait ce = false ->
-  race_close_unread_reply (spec_upstream k pp line (concat segs)) cwait ce ut = false ->
+(* THE LINK: for all scenarios (proxy kind, PROXY option, segmentation, final-read status, close
+   order incl. half-closes of either side, trigger, client connection with or without
+   CloseWrite), every observation within the model's forced outcome - streams within their
+   intervals, the tunnel ending or not as predicted - satisfies spec_b: the tripwire verdict 4
+   cannot arise from the model side.  Excluded (named): an upstream that half-closes while
+   client bytes are still on their way behind a client connection without CloseWrite
+   ([region_upstream_half_close]: the code ends the tunnel there, timing decides how much of the
+   client's stream is cut; kept out of the generated domain); [ws_head_first]. *)
+Theorem scenario_meets_spec : forall k pp line segs fin cw_in cwait ce ut reply rseg1 whead ue e o_up o_cl o_ended o_eof,
+  scenario_expect k pp line segs fin cw_in cwait ce ut reply rseg1 whead ue = Ok e ->
+  region_upstream_half_close (spec_upstream k pp line (concat segs)) cw_in ut ue = false ->
   ws_head_first k ut whead = true ->
   within o_up (e_up e) (e_up_lo e) (nlen' (e_up e)) = true ->
   within o_cl (e_cl e) (e_cl_lo e) (e_cl_hi e) = true ->
-  spec_b k pp line (concat segs) cwait ce ut reply ue o_up o_cl = true.
+  ends_agree e o_ended = true -> eof_agree e o_eof = true ->
+  spec_b k pp line (concat segs) fin cw_in cwait ce ut reply ue o_up o_cl o_ended o_eof = true.
 Proof.
-  intros k pp line segs fin cwait ce ut reply rseg1 whead ue e o_up o_cl He Rh Rr Hw Hup Hcl.
+  intros k pp line segs fin cw_in cwait ce ut reply rseg1 whead ue e o_up o_cl o_ended o_eof He Rr Hw Hup Hcl Hen Hef.
   destruct (within_parts _ _ _ _ Hcl) as [Hclp Hcll].
   unfold spec_b.
   destruct k.
   - (* tcp *)
     cbn [tunnelled negb]. unfold scenario_expect in He. rewrite upstream_stream_f_eq, tcp_upstream_stream in He. cbn [bind] in He.
-    inversion He; subst e. cbn [spec_upstream] in *. apply tunnel_expect_meets_spec; assumption.
+    inversion He; subst e. cbn [spec_upstream] in *. eapply tunnel_expect_meets_spec; eassumption.
   - (* tcp+sni *)
     unfold tunnelled. destruct (sni_route_name (concat segs)) as [[n [|c name]]|kk|] eqn:S; cbn [negb]; try reflexivity.
     unfold scenario_expect in He. rewrite upstream_stream_f_eq in He.
     rewrite (sni_upstream_stream_total pp line segs n (c :: name) S) in He by discriminate. cbn [bind] in He.
-    inversion He; subst e. apply tunnel_expect_meets_spec; assumption.
+    inversion He; subst e. eapply tunnel_expect_meets_spec; eassumption.
   - (* tcp-dynamic *)
     cbn [tunnelled negb]. unfold scenario_expect in He. rewrite upstream_stream_f_eq, dynamic_upstream_stream in He. cbn [bind] in He.
-    inversion He; subst e. apply tunnel_expect_meets_spec; assumption.
+    inversion He; subst e. eapply tunnel_expect_meets_spec; eassumption.
   - (* websocket *)
     unfold tunnelled. destruct (has_prefix reply ws_101) eqn:P; cbn [negb]; [|reflexivity].
     unfold scenario_expect in He.
@@ -1133,17 +1334,16 @@ Proof.
     destruct (ws_upgrade_any_segmentation useg) as [chunk [rest [R1 [R2 _]]]]; [rewrite Hu; exact P0|].
     rewrite R1 in He. cbn [bind] in He. rewrite R2 in He.
     rewrite copy_preserves_stream in He. cbn [bind] in He.
-    inversion He; subst e. clear He. cbn [e_up e_up_lo e_cl e_cl_lo e_cl_hi] in *.
-    cbn [spec_upstream] in *. apply tunnel_expect_meets_spec; try assumption.
+    inversion He; subst e. clear He. unfold ends_agree in Hen. unfold eof_agree in Hef. cbn [e_up e_up_lo e_cl e_cl_lo e_cl_hi e_ends e_cl_eof] in *.
+    cbn [spec_upstream] in *. eapply tunnel_expect_meets_spec; try eassumption.
     eapply N.le_trans; [apply N.le_max_r | exact Hcll].
 Qed.
 
 Example scenario_meets_spec_nonvacuous :
-  exists e, scenario_expect KSni true [80; 32]%N [wit_hello ++ [1; 2]%N; [3]%N] 1 true CHalf (UAfterBytes 4) [7; 8]%N 0 0 UStay = Ok e /\
+  exists e, scenario_expect KSni true [80; 32]%N [wit_hello ++ [1; 2]%N; [3]%N] 1 false false CHalf UOnEOF [7; 8]%N 0 0 UHalf = Ok e /\
     within ([80; 32]%N ++ wit_hello ++ [1; 2; 3]%N) (e_up e) (e_up_lo e) (nlen' (e_up e)) = true /\
-    within [7; 8]%N (e_cl e) (e_cl_lo e) (e_cl_hi e) = true /\
-    region_half_close true CHalf = false /\
-    race_close_unread_reply (spec_upstream KSni true [80; 32]%N (wit_hello ++ [1; 2; 3]%N)) true CHalf (UAfterBytes 4) = false.
+    within [7; 8]%N (e_cl e) (e_cl_lo e) (e_cl_hi e) = true /\ ends_agree e true = true /\ eof_agree e false = true /\
+    region_upstream_half_close (spec_upstream KSni true [80; 32]%N (wit_hello ++ [1; 2; 3]%N)) false UOnEOF UHalf = false.
 Proof. eexists. repeat split; vm_compute; reflexivity. Qed.
 
 (* ================= a segment boundary at the ClientHello's end: nothing is buffered beyond it ================= *)
